@@ -228,6 +228,9 @@ class ASTVisitor:
                 definition.default_value
             )
         definition.type = self._visit_type(definition.type)
+        definition.directives = map_and_filter(
+            self._visit_directive, definition.directives
+        )
         return definition
 
     @_visit_method
